@@ -204,6 +204,21 @@ type c13Opts struct {
 	settingsFirst bool
 }
 
+// handlerSendFailed: the handler of the RPC on this stream was told that one of its sends failed (its RPC had been
+// cancelled, say). If it returns OK all the same, the truncated message before the OK close is the application's doing.
+func handlerSendFailed(tr *Trace, ix *wireIndex, k streamKey) bool {
+	rpc, ok := ix.rpcOf[k]
+	if !ok {
+		return false
+	}
+	for _, o := range tr.Ops {
+		if o.RPC == rpc && o.Side == "handler" && o.Kind == "send" && !o.Pending() && o.Code != CodeNil {
+			return true
+		}
+	}
+	return false
+}
+
 func monC13(c *Case, tr *Trace) []Violation {
 	var vs []Violation
 	add := func(class string, step int, f string, a ...any) {
@@ -394,7 +409,7 @@ func monC13(c *Case, tr *Trace) []Violation {
 				closeFrame = f
 				// (not for a nested tunnel's own carrier stream: there the "application" is the inner tunnel server, whose
 				// serving call legitimately returns while handler goroutines of the inner tunnel may still be inside a send)
-				if down.inMsg && t.Code == 0 && !isTunnelStream(frames) {
+				if down.inMsg && t.Code == 0 && !isTunnelStream(frames) && !handlerSendFailed(tr, ix, k) {
 					add("message_truncated", f.Step, "carrier %d stream %d: OK close while a response message was incomplete (%d/%d)", k.carrier, k.id, down.got, down.want)
 				}
 			case "window_update":
@@ -527,7 +542,7 @@ func monC06Sender(c *Case, tr *Trace) []Violation {
 				// consumed so far
 				var consumed int64
 				n := 0
-				inProgress := false
+				inProgress := 0 // reads under way in the step of the frame (several for an actor that runs its operations back to back)
 				for _, o := range tr.Ops {
 					if o.RPC != rpc || o.Side != side {
 						continue
@@ -539,7 +554,7 @@ func monC06Sender(c *Case, tr *Trace) []Violation {
 						continue
 					}
 					if o.Pending() || o.End >= f.Step {
-						inProgress = true
+						inProgress++
 						continue
 					}
 					if o.Code == CodeNil && n < len(sizes) {
@@ -547,9 +562,9 @@ func monC06Sender(c *Case, tr *Trace) []Violation {
 						n++
 					}
 				}
-				if inProgress {
-					// the message under assembly (and, on a non-streaming side, the look-ahead) may be consumed too
-					for j := n; j < len(sizes) && j < n+2; j++ {
+				if inProgress > 0 {
+					// the messages under assembly (and, on a non-streaming side, the look-ahead) may be consumed too
+					for j := n; j < len(sizes) && j < n+inProgress+1; j++ {
 						consumed += int64(wireSize(sizes[j]))
 					}
 				}
@@ -662,8 +677,8 @@ func monC14(c *Case, tr *Trace) []Violation {
 				}
 			}
 			for k, e := range evs {
-				if k.id == -1 || e.nsEmit < 0 {
-					continue
+				if k.id == -1 || e.nsEmit < 0 || e.nsEmit > sn.Step {
+					continue // (a stream opened after this snapshot - the probe RPC, say - says nothing about it)
 				}
 				isTunnelStream := false
 				for _, f := range ix.byStream[k] {
@@ -735,6 +750,9 @@ func countOpened(tr *Trace, step int) int {
 
 func allInvocationsReturned(tr *Trace, step int) bool {
 	for _, inv := range tr.Invocations {
+		if inv.Step > step {
+			continue // invoked after this point (the probe RPC, say)
+		}
 		if inv.Returned < 0 || inv.Returned > step {
 			return false
 		}
